@@ -22,6 +22,8 @@ var Registry = map[string]func(*Ctx){
 	"C15": C15,
 	"C16": C16,
 	"C17": C17,
+	"C19": C19,
+	"C20": C20,
 }
 
 // Replay re-runs the case stored in a violation file against pigeon rebuilt from the current tree.
